@@ -437,6 +437,11 @@ impl<'a> Ctx<'a> {
     }
 }
 
+/// amounts the contract has to form as 96-bit decimals (DESIGN section 3: numeric domain)
+fn fits96(x: u128) -> bool {
+    x < (1u128 << 96)
+}
+
 fn refuse(reason: &'static str) -> Expect {
     Expect::Refuse { reason }
 }
@@ -448,7 +453,7 @@ fn dont(reason: &'static str) -> Expect {
 fn admissible_price(price: &str, cfg: &Cfg) -> Result<Dec, Expect> {
     match dec::parse(price) {
         Parsed::Bad => Err(refuse("price_unparseable")),
-        Parsed::Odd => Err(dont("price_spelling")),
+        Parsed::Odd | Parsed::Long => Err(dont("price_spelling")),
         Parsed::Ok(p) => {
             if !p.is_positive() {
                 return Err(refuse("price_not_positive"));
@@ -493,19 +498,49 @@ fn fee_of(rate: &str, amount: U) -> Result<u128, Expect> {
 
 /// R(fee * rem / total): half-up value and, at an exact half-unit tie, also the next lower unit
 fn pro_rata(fee: u128, rem: u128, total: u128) -> Result<Vec<u128>, Expect> {
+    pro_rata_alts(fee, rem, total).map_err(dont)
+}
+
+/// R(fee * rem / total): the values the statement accepts for the pro-rata quotient.
+///
+/// The exact value is rounded half-up. The contract forms the quotient rem/total in 28-digit
+/// decimals and multiplies by the fee, which carries an absolute error of at most about
+/// fee * 1e-28 (each of the two roundings contributes fee * 0.5e-28). So:
+///  * at an exact half-unit tie the next lower unit is accepted as well (C09's own wording);
+///  * when the exact value lies within fee * 2e-28 of a half unit (only possible for fees of
+///    about 1e18 and more) both neighbouring integers are accepted;
+///  * everywhere else only the half-up value is.
+/// Fees of 1e27 and more are outside the domain (the error bound approaches half a unit).
+pub fn pro_rata_alts(fee: u128, rem: u128, total: u128) -> Result<Vec<u128>, &'static str> {
     if total == 0 {
-        return Err(dont("zero_quote_total"));
+        return Err("zero_quote_total");
     }
-    // condition under which the 28-digit quotient deviates from exact half-up only at ties, downwards
-    if u(fee).checked_mul(u(total)).map(|x| x >= pow10(27)).unwrap_or(true) {
-        return Err(dont("pro_rata_domain"));
+    if fee >= 10u128.pow(27) || rem > total {
+        return Err("pro_rata_domain");
     }
-    let num = u(fee) * u(rem);
+    let num = u(fee).checked_mul(u(rem)).map_err(|_| "domain")?;
     let den = u(total);
-    let h = to_u128(div_half_up(num, den)).ok_or_else(|| dont("domain"))?;
+    let h = to_u128(div_half_up(num, den)).ok_or("domain")?;
+    let two = u(2);
+    let r = (num * two) % (den * two); // in [0, 2*den): r == den is the exact tie
     let mut v = vec![h];
-    if is_half_tie(num, den) && h >= 1 {
-        v.push(h - 1);
+    if r == den {
+        if h >= 1 {
+            v.push(h - 1);
+        }
+        return Ok(v);
+    }
+    // distance to the half unit, as a fraction of 2*den, against fee * 2e-28
+    let dist = if r > den { r - den } else { den - r };
+    let thr = u(fee).checked_mul(den).map_err(|_| "domain")?.checked_mul(u(4)).map_err(|_| "domain")? / pow10(28);
+    if !thr.is_zero() && dist <= thr {
+        // near-tie at large magnitudes: floor and ceiling are both acceptable
+        let fl = to_u128(num / den).ok_or("domain")?;
+        for c in [fl, fl + 1] {
+            if !v.contains(&c) {
+                v.push(c);
+            }
+        }
     }
     Ok(v)
 }
@@ -594,6 +629,9 @@ fn create_ask(cx: &Ctx, id: &str, base: &str, quote: &str, price: &str, size: u1
     }
     if size < 1 {
         return refuse("size_zero");
+    }
+    if !fits96(size) {
+        return dont("amount_domain");
     }
     if cfg.increment == 0 {
         return dont("increment_zero");
@@ -688,6 +726,9 @@ fn create_bid(
     }
     if size < 1 || quote_size < 1 {
         return refuse("size_zero");
+    }
+    if !fits96(size) || !fits96(quote_size) {
+        return dont("amount_domain");
     }
     let p = match admissible_price(price, cfg) {
         Ok(p) => p,
@@ -1033,6 +1074,9 @@ fn reverse_bid(cx: &Ctx, id: &str, size: Option<Option<u128>>, action: &'static 
             c
         }
     };
+    if !fits96(c) || !fits96(bid.quote_amount) || !fits96(bid.base_amount) {
+        return dont("amount_domain");
+    }
     let p = match dec::parse(&bid.price) {
         Parsed::Ok(p) => p,
         _ => return dont("stored_price_spelling"),
@@ -1165,7 +1209,7 @@ fn execute_match(cx: &Ctx, ask_id: &str, bid_id: &str, price: &str, size: u128) 
     let p = match dec::parse(price) {
         Parsed::Ok(p) => p,
         Parsed::Bad => return refuse("price_unparseable"),
-        Parsed::Odd => return dont("price_spelling"),
+        Parsed::Odd | Parsed::Long => return dont("price_spelling"),
     };
     if ap.cmp_val(&bp) == std::cmp::Ordering::Greater {
         return refuse("ask_above_bid");
@@ -1177,6 +1221,9 @@ fn execute_match(cx: &Ctx, ask_id: &str, bid_id: &str, price: &str, size: u128) 
     }
     if size > ask.size || size > bid.unfilled() {
         return refuse("size_above_remainder");
+    }
+    if !fits96(size) || !fits96(bid.quote_amount) || !fits96(bid.base_amount) {
+        return dont("amount_domain");
     }
     let gross = match p.mul_int(u(size)) {
         Some(g) if g.representable() => g,
@@ -1392,6 +1439,18 @@ pub fn fee_pair(rate: &Option<String>, account: &Option<String>) -> PairVerdict 
             match dec::parse(r) {
                 Parsed::Bad => PairVerdict::BadRate,
                 Parsed::Odd => PairVerdict::OddRate,
+                Parsed::Long => {
+                    // a decimal with more digits than the arithmetic keeps: parseable, installed as written
+                    let f = FeeCfg {
+                        account: a.clone(),
+                        rate: r.clone(),
+                    };
+                    if addr_ok(a) {
+                        PairVerdict::Install(f)
+                    } else {
+                        PairVerdict::BadAccount(f)
+                    }
+                }
                 Parsed::Ok(_) => {
                     let f = FeeCfg {
                         account: a.clone(),
@@ -1411,6 +1470,25 @@ pub fn fee_pair(rate: &Option<String>, account: &Option<String>) -> PairVerdict 
 fn rate_eq(a: &str, b: &str) -> Option<bool> {
     match (dec::parse(a), dec::parse(b)) {
         (Parsed::Ok(x), Parsed::Ok(y)) => Some(x.eq_val(&y)),
+        (Parsed::Ok(_) | Parsed::Long, Parsed::Ok(_) | Parsed::Long) => {
+            // more digits than the arithmetic keeps: "as a number" means as the arithmetic sees
+            // it. Clearly different values are different; anything within a few units of the
+            // 28th decimal is left undecided
+            let (x, y) = (dec::parse_rounded28(a)?, dec::parse_rounded28(b)?);
+            if x.neg || y.neg {
+                return None;
+            }
+            let sc = x.scale.max(y.scale);
+            let xa = x.mant * dec::pow10(sc - x.scale);
+            let ya = y.mant * dec::pow10(sc - y.scale);
+            let diff = if xa > ya { xa - ya } else { ya - xa };
+            let unit28 = if sc >= 28 { dec::pow10(sc - 28) } else { dec::u(0) };
+            if diff > unit28 * dec::u(10) && !diff.is_zero() {
+                Some(false)
+            } else {
+                None
+            }
+        }
         _ => None,
     }
 }
@@ -1664,6 +1742,15 @@ pub fn version_class(s: &str) -> VersionClass {
     if core_end < s.len() {
         if s.as_bytes()[core_end] == b'-' && (n[0], n[1], n[2]) <= (0, 16, 2) && core_end + 1 < s.len() {
             return VersionClass::PreReleaseBelowMin;
+        }
+        if s.as_bytes()[core_end] == b'+' {
+            // build metadata only: it does not take part in precedence, the version is its core
+            let meta = &s[core_end + 1..];
+            let ok = !meta.is_empty() && meta.split('.').all(|p| !p.is_empty() && p.bytes().all(|b| b.is_ascii_alphanumeric() || b == b'-'));
+            if ok {
+                return VersionClass::Triple(n[0], n[1], n[2]);
+            }
+            return VersionClass::Malformed;
         }
         return VersionClass::PreOrBuild;
     }
